@@ -336,11 +336,13 @@ pub struct RenderCfg {
     pub juxta: usize,
     /// call form only for alphabetic operators
     pub call_alpha_only: bool,
+    /// if set, the call/infix decision of the binary nodes is scripted (in rendering order)
+    pub call_script: Option<std::cell::RefCell<(Vec<bool>, usize)>>,
 }
 
 impl RenderCfg {
     pub fn plain() -> RenderCfg {
-        RenderCfg { extra_paren: 0, space: 0, brace: 0, call: 0, juxta: 0, call_alpha_only: true }
+        RenderCfg { extra_paren: 0, space: 0, brace: 0, call: 0, juxta: 0, call_alpha_only: true, call_script: None }
     }
     pub fn random(rng: &mut Rng) -> RenderCfg {
         if rng.chance(1, 4) {
@@ -353,6 +355,7 @@ impl RenderCfg {
             call: 0,
             juxta: rng.below(4),
             call_alpha_only: true,
+            call_script: None,
         }
     }
 }
@@ -396,6 +399,12 @@ fn render_rec(t: &Tree, table: &Table, rng: &mut Rng, cfg: &RenderCfg, out: &mut
 }
 
 fn will_call(o: usize, table: &Table, rng: &mut Rng, cfg: &RenderCfg) -> bool {
+    if let Some(script) = &cfg.call_script {
+        let mut s = script.borrow_mut();
+        let i = s.1;
+        s.1 += 1;
+        return s.0.get(i).copied().unwrap_or(false);
+    }
     cfg.call > 0 && (!cfg.call_alpha_only || table[o].is_alpha()) && rng.chance(cfg.call, 6)
 }
 
@@ -592,4 +601,50 @@ pub fn shrink_tree(t: &Tree, still_fails: &mut dyn FnMut(&Tree) -> bool, budget:
         break;
     }
     cur
+}
+
+// ---------------------------------------------------------------------------------------------
+// call notation
+
+/// Rewrites every call `op ( A , B )` in a token list into `( ( A ) op ( B ) )` - literally what
+/// the property C08 says the call form denotes.
+pub fn expand_calls(toks: &[Tok]) -> Vec<Tok> {
+    let mut out = vec![];
+    let mut i = 0;
+    while i < toks.len() {
+        if toks[i].kind == TK::BinOp && i + 1 < toks.len() && toks[i + 1].kind == TK::Open {
+            if let Some(close) = matching_close(toks, i + 1) {
+                // top-level comma inside?
+                let mut d = 0;
+                let mut comma = None;
+                for (j, t) in toks.iter().enumerate().take(close).skip(i + 2) {
+                    match t.kind {
+                        TK::Open => d += 1,
+                        TK::Close => d -= 1,
+                        TK::Comma if d == 0 => {
+                            comma = Some(j);
+                            break;
+                        }
+                        _ => {}
+                    }
+                }
+                if let Some(c) = comma {
+                    out.push(Tok::new(TK::Open, "("));
+                    out.push(Tok::new(TK::Open, "("));
+                    out.extend(expand_calls(&toks[i + 2..c]));
+                    out.push(Tok::new(TK::Close, ")"));
+                    out.push(toks[i].clone());
+                    out.push(Tok::new(TK::Open, "("));
+                    out.extend(expand_calls(&toks[c + 1..close]));
+                    out.push(Tok::new(TK::Close, ")"));
+                    out.push(Tok::new(TK::Close, ")"));
+                    i = close + 1;
+                    continue;
+                }
+            }
+        }
+        out.push(toks[i].clone());
+        i += 1;
+    }
+    out
 }
